@@ -45,7 +45,7 @@ Proof.
   pose proof (fun k a => no_rsend cf s k a (invO1_reach cf s R) W) as NS.
   destruct (invS_reach cf s R) as (I1 & I2 & _ & I4 & _ & _ & IS7 & _).
   destruct (invA_reach cf s R) as (_ & _ & IA3 & _).
-  destruct (invP_reach cf s R) as (IP1 & _ & _ & _ & IP5).
+  destruct (invP_reach cf s R) as (IP1 & _ & IP5).
   destruct s; sproj. destruct Q as (? & ?). subst.
   assert (fpanic = None) by (apply IP1; reflexivity). subst. clear IP1.
   open_step' l H.
